@@ -249,7 +249,10 @@ def concurrent_scenarios():
                 for close_at in (0.0, 0.1, d, d + 0.1):
                     out.append({"transport": transport, "framing": framing, "keep_alive": ka, "T": 1, "R": 1,
                                 "by_reg": {811: [["delay", d]], 812: [["delay", 0.2]], 813: ["now"]}, "after": "now", "gc": True,
-                                "actions": ["close-during-request", d, close_at], "healthy_reg": 813, "expect_zero_at": 4.0,
+                                "actions": ["close-during-request", d, close_at], "healthy_reg": 813,
+                                # TCP close() queues behind the request in flight, so once both have ended (long before t=2) nothing
+                                # may be open; UDP close() is immediate and the request it interrupted may legitimately re-open
+                                "expect_zero_at": 2.0 if transport == "tcp" else 4.0,
                                 "tasks": [{"start": 0.0, "steps": [["read", 811, 2]]},
                                           {"start": close_at, "steps": [["close"]] if close_at != d else [["read", 812, 2], ["close"]]},
                                           {"start": 3.0, "steps": [["close"], ["sleep", 1.5], ["read", 813, 2], ["close"]]}]})
